@@ -61,7 +61,7 @@ META = {
     },
     "C12": {
         "technique": "deterministic simulation: extreme clocks/durations (up to MaxInt64) through every calculator kind and override; exact deadline comparison via GetEntryQuietly after every step, visibility flip at the deadline",
-        "level_text": "Two engines (all operations; refresh-only with forced refresh policies, where the refresh deadline of every entry is compared after every step). Seeded search with clock origins up to 2^63-2^50 and durations up to MaxInt64 through creation/write/access/custom calculators, SetExpiresAfter/SetRefreshableAfter; ExpiresAtNano/RefreshableAtNano must equal op time + duration exactly where representable, otherwise the entry must stay visible; the generator steps the clock to deadline-1/deadline/deadline+1.",
+        "level_text": "Two engines (all operations; refresh-only with forced refresh policies, where the refresh deadline of every entry is compared after every step). Loaders may take simulated time (the clock moves while they run), so deadlines of loaded values must be computed from the installation time, not from the lookup. Seeded search with clock origins up to 2^63-2^50 and durations up to MaxInt64 through creation/write/access/custom calculators, SetExpiresAfter/SetRefreshableAfter; ExpiresAtNano/RefreshableAtNano must equal op time + duration exactly where representable, otherwise the entry must stay visible; the generator steps the clock to deadline-1/deadline/deadline+1.",
         "level_note": SEQ_NOTE,
         "rule": "one case = (configuration with expiry [and refresh], operation sequence). Non-trivial: at least 5 operations touched live entries (deadline computed and compared). Distinct: hash of the case.",
         "components": comp(),
